@@ -76,6 +76,67 @@ pub fn run(o: &Opts) -> Report {
         }
         for e in envs.drain(..) { std::env::remove_var(e); }
     }
+    // two families outside the generated trees (real crate only): a typed external-subcommand parser, and several
+    // global options without defaults given above a subcommand chain
+    {
+        use clap::{Arg, ArgAction, value_parser};
+        let ext = |kind: usize| {
+            let c = Command::new("prog").allow_external_subcommands(true).arg(Arg::new("flag").long("flag").action(ArgAction::SetTrue));
+            match kind { 0 => c.external_subcommand_value_parser(value_parser!(u16)), 1 => c.external_subcommand_value_parser(value_parser!(String)), _ => c }
+        };
+        let glob = |n: usize| {
+            let mut c = Command::new("prog");
+            for i in 0..n { c = c.arg(Arg::new(format!("g{i}")).long(format!("g{i}")).global(true).action(ArgAction::Set)); }
+            c.subcommand(Command::new("mid").subcommand(Command::new("leaf").arg(Arg::new("x").long("x").action(ArgAction::SetTrue))))
+        };
+        let t = |v: &[&str]| -> Vec<Vec<u8>> { v.iter().map(|x| x.as_bytes().to_vec()).collect() };
+        let mut fams: Vec<(String, Box<dyn Fn() -> Command>, Vec<Vec<Vec<u8>>>)> = vec![];
+        for kind in 0..3 {
+            fams.push((format!("typed-external-subcommand#{kind}"), Box::new(move || ext(kind)), vec![
+                t(&["prog", "ports", "80", "443"]), t(&["prog", "ports", "80", "http"]), t(&["prog", "--flag", "ports", "70000"]),
+                { let mut v = t(&["prog", "ports"]); v.push(vec![0x38, 0xff]); v }, t(&["prog", "--flag"]), t(&["prog", "ports"])]));
+        }
+        for n in 2..5 {
+            let mut pool = vec![];
+            let all: Vec<String> = (0..n).map(|i| format!("--g{i}=v{i}")).collect();
+            let mut a = vec!["prog".to_string()]; a.extend(all.iter().cloned()); a.extend(["mid".to_string(), "leaf".to_string(), "--x".to_string()]);
+            pool.push(a.iter().map(|x| x.as_bytes().to_vec()).collect::<Vec<_>>());
+            let mut b = vec!["prog".to_string()]; b.extend(all.iter().rev().cloned()); b.push("mid".to_string());
+            pool.push(b.iter().map(|x| x.as_bytes().to_vec()).collect::<Vec<_>>());
+            let mut c = vec!["prog".to_string(), all[0].clone(), "mid".to_string()]; c.extend(all[1..].iter().cloned()); c.push("leaf".to_string());
+            pool.push(c.iter().map(|x| x.as_bytes().to_vec()).collect::<Vec<_>>());
+            fams.push((format!("globals-without-defaults#{n}"), Box::new(move || glob(n)), pool));
+        }
+        for (fname, mk, pool) in &fams {
+            let fresh: Vec<(String, String)> = pool.iter().map(|a| { let mut c = mk(); run_parse(&mut c, a) }).collect();
+            // determinism of fresh definitions
+            for round in 0..(if o.thorough() { 40 } else { 12 }) {
+                for (i, a) in pool.iter().enumerate() {
+                    let mut c = mk();
+                    let got = run_parse(&mut c, a);
+                    let key = format!("{fname} argv#{i} fresh-round#{round}");
+                    if got != fresh[i] { rep.oracle_fail("parse-result-differs-between-fresh-definitions", &key, &format!("got {} | first {}", &got.0[..got.0.len().min(300)], &fresh[i].0[..fresh[i].0.len().min(300)])); }
+                    rep.case(&key, true);
+                }
+            }
+            // histories on one definition
+            for hround in 0..(if o.thorough() { 60 } else { 20 }) {
+                let mut cmd = mk();
+                let mut trace = vec![];
+                for _ in 0..(2 + rng.below(5)) {
+                    if rng.chance(1, 5) { cmd = cmd.clone(); trace.push("Clone".to_string()); continue; }
+                    if rng.chance(1, 6) { cmd.build(); trace.push("Build".to_string()); continue; }
+                    let i = rng.below(pool.len());
+                    let got = run_parse(&mut cmd, &pool[i]);
+                    let key = format!("{fname} argv#{i} history#{hround} after {trace:?}");
+                    if got.0 != fresh[i].0 { rep.oracle_fail("parse-result-depends-on-history", &key, &format!("got {} | fresh {}", &got.0[..got.0.len().min(300)], &fresh[i].0[..fresh[i].0.len().min(300)])); }
+                    rep.case(&key, !trace.is_empty());
+                    rep.count("parses_in_family_histories");
+                    trace.push(format!("Parse({i})"));
+                }
+            }
+        }
+    }
     rep.count_n("commands", done as u64);
     if o.driver != "none" {
         let model = driver_batch(&o.driver, &reqs, o.par);
